@@ -128,6 +128,17 @@ def evaluate(case: dict[str, Any], keep: list[int] | None, split: bool) -> tuple
     except OptimizationAborted as exc:
         check(exc.exit_code == OptimizerExitCode.TOO_FEW_REALIZATIONS, "abort-code", f"{exc.exit_code}", case)
         return None
+    if keep is None and case["filter"] == "none" and not case.get("inf"):
+        # a failure is not a weight of zero: what the evaluator is told to skip is decided by the weights alone (without filters:
+        # the configured ones), also in the gradient request that follows a function evaluation with failed realizations
+        for call in getattr(ev, "calls", []):
+            for name in ("active_objectives", "active_constraints"):
+                flags = call[name]
+                if flags is not None:
+                    for r in range(case["R"]):
+                        check(case["weights"][r] == 0 or bool(np.all(flags[:, r])), "inactive-with-weight",
+                              f"{name}: realization {r} is flagged inactive although its weight is {case['weights'][r]} "
+                              f"(perturbation labels {call['perturbations'].tolist()})", case)
     return fres, gres
 
 
